@@ -1,5 +1,592 @@
 package c11
 
-import "verif/harness/monitor"
+import (
+	"encoding/json"
+	"fmt"
+	"strings"
+	"math/rand"
+	"time"
 
-func RunWire(r *monitor.Run) {}
+	"github.com/DrmagicE/gmqtt"
+	"github.com/DrmagicE/gmqtt/config"
+
+	"verif/harness/broker"
+	"verif/harness/monitor"
+	"verif/harness/mqttx"
+	"verif/harness/refmodel"
+	"verif/harness/wire"
+)
+
+// Op is one step of a wire scenario.
+type Op struct {
+	Kind   string // join | unsub | plain | unplain | disconnect | drop | reconnect | publish | terminate
+	M      int    `json:",omitempty"`
+	Group  string `json:",omitempty"`
+	Filter string `json:",omitempty"`
+	QoS    byte   `json:",omitempty"`
+	Clean  bool   `json:",omitempty"`
+	Topic  string `json:",omitempty"`
+	API    bool   `json:",omitempty"`
+}
+
+// Scenario is one generated case.
+type Scenario struct {
+	Mode       string
+	Persistent []bool // per member: session expiry 3600 or 0
+	Ops        []Op
+}
+
+type gkey struct{ Group, Filter string }
+
+func (o Op) String() string {
+	switch o.Kind {
+	case "join", "unsub":
+		return fmt.Sprintf("%s(m%d,$share/%s/%s,q%d)", o.Kind, o.M, o.Group, o.Filter, o.QoS)
+	case "plain", "unplain":
+		return fmt.Sprintf("%s(m%d,%s,q%d)", o.Kind, o.M, o.Filter, o.QoS)
+	case "publish":
+		return fmt.Sprintf("publish(%s,q%d,api=%v)", o.Topic, o.QoS, o.API)
+	case "reconnect":
+		return fmt.Sprintf("reconnect(m%d,clean=%v)", o.M, o.Clean)
+	}
+	return fmt.Sprintf("%s(m%d)", o.Kind, o.M)
+}
+
+func gen(rng *rand.Rand, maxOps int) Scenario {
+	nm := 2 + rng.Intn(4)
+	sc := Scenario{Mode: []string{config.Overlap, config.OnlyOnce}[rng.Intn(2)]}
+	for i := 0; i < nm; i++ {
+		sc.Persistent = append(sc.Persistent, rng.Intn(2) == 0)
+	}
+	topics := [][]string{{"a/b", "a/c", "a", "$s/b"}, {"x", "x/y", "/", "x/"}}[rng.Intn(2)]
+	filters := [][]string{{"a/b", "a/+", "a/#", "#", "+/b", "$s/+"}, {"x", "x/#", "+", "+/+", "x/+", "/"}}[0]
+	if topics[0] == "x" {
+		filters = []string{"x", "x/#", "+", "+/+", "x/+", "/"}
+	}
+	groups := []string{"g1", "g2"}
+	online := make([]bool, nm)
+	for i := range online {
+		online[i] = true
+	}
+	n := 6 + rng.Intn(maxOps)
+	for i := 0; i < n; i++ {
+		m := rng.Intn(nm)
+		f := filters[rng.Intn(len(filters))]
+		g := groups[rng.Intn(len(groups))]
+		x := rng.Intn(100)
+		switch {
+		case x < 30:
+			if online[m] {
+				sc.Ops = append(sc.Ops, Op{Kind: "join", M: m, Group: g, Filter: f, QoS: byte(rng.Intn(3))})
+			}
+		case x < 38:
+			if online[m] {
+				sc.Ops = append(sc.Ops, Op{Kind: "unsub", M: m, Group: g, Filter: f})
+			}
+		case x < 46:
+			if online[m] {
+				sc.Ops = append(sc.Ops, Op{Kind: "plain", M: m, Filter: f, QoS: byte(rng.Intn(3))})
+			}
+		case x < 49:
+			if online[m] {
+				sc.Ops = append(sc.Ops, Op{Kind: "unplain", M: m, Filter: f})
+			}
+		case x < 55:
+			if online[m] {
+				sc.Ops = append(sc.Ops, Op{Kind: []string{"disconnect", "drop"}[rng.Intn(2)], M: m})
+				online[m] = false
+			}
+		case x < 63:
+			// reconnect: for an online member this is a take-over
+			sc.Ops = append(sc.Ops, Op{Kind: "reconnect", M: m, Clean: rng.Intn(2) == 0})
+			online[m] = true
+		case x < 66:
+			sc.Ops = append(sc.Ops, Op{Kind: "terminate", M: m})
+			online[m] = false
+		default:
+			sc.Ops = append(sc.Ops, Op{Kind: "publish", Topic: topics[rng.Intn(len(topics))], QoS: byte(rng.Intn(3)), API: rng.Intn(4) == 0})
+		}
+	}
+	return sc
+}
+
+type member struct {
+	c       *wire.Client
+	online  bool
+	exists  bool // session exists
+	groups  map[gkey]byte
+	plain   map[string]byte
+	prev    []*wire.Client // earlier connections of this member (their receptions count)
+	sentinelSub bool
+}
+
+type memq struct {
+	M int
+	Q byte
+}
+
+type pubRec struct {
+	payload string
+	topic   string
+	qos     byte
+	members map[gkey][]memq // current members (with granted QoS) per matching group-filter at publish time
+	plainOf map[int][]byte // matching non-shared subscriptions (granted QoS) per member
+	offline map[int]bool   // members that were offline when it was published
+	lossy   map[int]bool   // ... and whose session ended before they came back: their copy is unobservable
+}
+
+type finding struct{ Sig, What string }
+
+const step = 15 * time.Second
+
+func subID(m int, k gkey, filters []string) uint32 {
+	gi := 1
+	if k.Group == "g2" {
+		gi = 2
+	}
+	fi := 0
+	for i, f := range filters {
+		if f == k.Filter {
+			fi = i
+		}
+	}
+	return uint32(1000*(m+1) + 100*gi + fi)
+}
+
+func runW(sc *Scenario) (fs []finding, obs map[string]int, hist map[string]int, rerr error) {
+	obs = map[string]int{}
+	hist = map[string]int{}
+	add := func(sig, what string) { fs = append(fs, finding{sig, what}) }
+	b, err := broker.Start(broker.Options{Cfg: func(c *config.Config) {
+		c.MQTT.DeliveryMode = sc.Mode
+		c.MQTT.MessageExpiry = 0
+	}})
+	if err != nil {
+		return nil, nil, nil, err
+	}
+	defer b.Stop(10 * time.Second)
+	var allFilters []string
+	seenF := map[string]bool{}
+	for _, o := range sc.Ops {
+		if o.Filter != "" && !seenF[o.Filter] {
+			seenF[o.Filter] = true
+			allFilters = append(allFilters, o.Filter)
+		}
+	}
+	nm := len(sc.Persistent)
+	ms := make([]*member, nm)
+	connect := func(i int, clean bool) (bool, error) {
+		c, err := wire.Dial(fmt.Sprintf("m%d", i), b.Addr, mqttx.V5)
+		if err != nil {
+			return false, err
+		}
+		p := &mqttx.Packet{ClientID: fmt.Sprintf("m%d", i), CleanStart: clean}
+		if sc.Persistent[i] {
+			e := uint32(3600)
+			p.Props = &mqttx.Props{SessionExpiry: &e}
+		}
+		ack, err := c.Connect(p, step)
+		if err != nil || ack.Code != 0 {
+			return false, fmt.Errorf("connect m%d: %v %v", i, ack, err)
+		}
+		if ms[i] != nil && ms[i].c != nil {
+			old := ms[i].c
+			// keep the old connection's receptions: they are part of the member's history
+			ms[i].prev = append(ms[i].prev, old)
+		}
+		ms[i].c = c
+		ms[i].online = true
+		return ack.SessionPresent, nil
+	}
+	for i := range ms {
+		ms[i] = &member{groups: map[gkey]byte{}, plain: map[string]byte{}}
+		if _, err := connect(i, true); err != nil {
+			return nil, nil, nil, err
+		}
+		ms[i].exists = true
+		if _, err := ms[i].c.Subscribe([]mqttx.Sub{{Filter: fmt.Sprintf("sent/m%d", i), QoS: 1}}, 0, step); err != nil {
+			return nil, nil, nil, err
+		}
+		ms[i].sentinelSub = true
+	}
+	pub, err := wire.Dial("pub", b.Addr, mqttx.V5)
+	if err != nil {
+		return nil, nil, nil, err
+	}
+	defer pub.Close()
+	if _, err := pub.Connect(&mqttx.Packet{ClientID: "publisher", CleanStart: true}, step); err != nil {
+		return nil, nil, nil, err
+	}
+	var pubs []pubRec
+	barN := 0
+	// barrier: everything queued for an online member so far has reached its socket
+	barrier := func(i int) bool {
+		if !ms[i].online || !ms[i].sentinelSub {
+			return true
+		}
+		barN++
+		pl := fmt.Sprintf("bar-%d", barN)
+		b.Srv.Publisher().Publish(&gmqtt.Message{Topic: fmt.Sprintf("sent/m%d", i), Payload: []byte(pl), QoS: 1})
+		if err := ms[i].c.WaitPayload(pl, step); err != nil {
+			add("barrier", fmt.Sprintf("m%d never received %s: %v", i, pl, err))
+			return false
+		}
+		return true
+	}
+	endSession := func(i int) {
+		for _, pr := range pubs {
+			if pr.offline[i] {
+				pr.lossy[i] = true
+			}
+		}
+		ms[i].groups = map[gkey]byte{}
+		ms[i].plain = map[string]byte{}
+		ms[i].exists = false
+		ms[i].sentinelSub = false
+	}
+	seq := 0
+	for oi, o := range sc.Ops {
+		m := o.M
+		switch o.Kind {
+		case "disconnect", "drop", "terminate", "reconnect":
+			if !barrier(m) {
+				return
+			}
+		}
+		switch o.Kind {
+		case "join":
+			k := gkey{o.Group, o.Filter}
+			sa, err := ms[m].c.Subscribe([]mqttx.Sub{{Filter: "$share/" + o.Group + "/" + o.Filter, QoS: o.QoS}}, subID(m, k, allFilters), step)
+			if err != nil || len(sa.Codes) != 1 || sa.Codes[0] != o.QoS {
+				add("join.suback", fmt.Sprintf("op %d %s: %v %v", oi, o, sa, err))
+				return
+			}
+			ms[m].groups[k] = o.QoS
+		case "unsub":
+			if _, err := ms[m].c.Unsubscribe([]string{"$share/" + o.Group + "/" + o.Filter}, step); err != nil {
+				add("unsub.ack", fmt.Sprintf("op %d %s: %v", oi, o, err))
+				return
+			}
+			delete(ms[m].groups, gkey{o.Group, o.Filter})
+		case "plain":
+			sa, err := ms[m].c.Subscribe([]mqttx.Sub{{Filter: o.Filter, QoS: o.QoS}}, 7, step)
+			if err != nil || len(sa.Codes) != 1 || sa.Codes[0] != o.QoS {
+				add("plain.suback", fmt.Sprintf("op %d %s: %v %v", oi, o, sa, err))
+				return
+			}
+			ms[m].plain[o.Filter] = o.QoS
+		case "unplain":
+			if _, err := ms[m].c.Unsubscribe([]string{o.Filter}, step); err != nil {
+				add("unplain.ack", err.Error())
+				return
+			}
+			delete(ms[m].plain, o.Filter)
+		case "disconnect", "drop":
+			from := b.Log.Len()
+			if o.Kind == "disconnect" {
+				ms[m].c.Disconnect(0, nil)
+			} else {
+				ms[m].c.Close()
+			}
+			ms[m].online = false
+			id := fmt.Sprintf("m%d", m)
+			if _, ok := b.Log.Wait(from, func(e broker.Event) bool { return e.Kind == "OnClosed" && e.Client == id }, step); !ok {
+				add("close.not_observed", "OnClosed never fired for "+id)
+				return
+			}
+			if !sc.Persistent[m] {
+				if _, ok := b.Log.Wait(from, func(e broker.Event) bool { return e.Kind == "OnSessionTerminated" && e.Client == id }, step); !ok {
+					add("session_end.not_observed", "session of "+id+" (expiry 0) not terminated at disconnect")
+					return
+				}
+				endSession(m)
+			}
+		case "terminate":
+			from := b.Log.Len()
+			id := fmt.Sprintf("m%d", m)
+			had := ms[m].exists
+			b.Srv.ClientService().TerminateSession(id)
+			if had {
+				if _, ok := b.Log.Wait(from, func(e broker.Event) bool { return e.Kind == "OnSessionTerminated" && e.Client == id }, step); !ok {
+					add("terminate.not_observed", "TerminateSession("+id+") did not terminate the session")
+					return
+				}
+			}
+			if ms[m].online {
+				ms[m].c.WaitEOF(step)
+			}
+			ms[m].online = false
+			endSession(m)
+		case "reconnect":
+			wasOnline := ms[m].online
+			sp, err := connect(m, o.Clean)
+			if err != nil {
+				add("reconnect", err.Error())
+				return
+			}
+			// a session with expiry 0 ends with its network connection, also when that is a take-over
+			resumed := ms[m].exists && !o.Clean && (sc.Persistent[m] || !wasOnline)
+			if sp != resumed {
+				add(fmt.Sprintf("reconnect.session_present:got=%v:want=%v", sp, resumed), fmt.Sprintf("op %d %s", oi, o))
+				return
+			}
+			if !resumed {
+				endSession(m)
+				if _, err := ms[m].c.Subscribe([]mqttx.Sub{{Filter: fmt.Sprintf("sent/m%d", m), QoS: 1}}, 0, step); err != nil {
+					add("reconnect.subscribe", err.Error())
+					return
+				}
+				ms[m].sentinelSub = true
+			}
+			ms[m].exists = true
+		case "publish":
+			seq++
+			pr := pubRec{payload: fmt.Sprintf("p%d", seq), topic: o.Topic, qos: o.QoS, members: map[gkey][]memq{}, plainOf: map[int][]byte{}, offline: map[int]bool{}, lossy: map[int]bool{}}
+			for i, mm := range ms {
+				if !mm.online {
+					pr.offline[i] = true
+				}
+				for k, q := range mm.groups {
+					if refmodel.Match(o.Topic, k.Filter) {
+						pr.members[k] = append(pr.members[k], memq{i, q})
+					}
+				}
+				for f, q := range mm.plain {
+					if refmodel.Match(o.Topic, f) {
+						pr.plainOf[i] = append(pr.plainOf[i], q)
+					}
+				}
+			}
+			if o.API {
+				b.Srv.Publisher().Publish(&gmqtt.Message{Topic: o.Topic, Payload: []byte(pr.payload), QoS: o.QoS})
+			} else {
+				if _, err := pub.Publish(&mqttx.Packet{Topic: o.Topic, QoS: o.QoS, Payload: []byte(pr.payload)}, step); err != nil {
+					add("publish.ack", err.Error())
+					return
+				}
+				if o.QoS == 0 {
+					if err := pub.Ping(step); err != nil {
+						add("publish.barrier", err.Error())
+						return
+					}
+				}
+			}
+			pubs = append(pubs, pr)
+		}
+	}
+	// drain: bring every member with a session back online, subscribe the sentinel topic again where needed, send sentinels
+	for i, mm := range ms {
+		if !mm.online {
+			if !mm.exists {
+				continue // nothing can be queued for a member without session
+			}
+			sp, err := connect(i, false)
+			if err != nil {
+				add("drain.reconnect", err.Error())
+				return
+			}
+			if !sp {
+				add("drain.session_lost", fmt.Sprintf("m%d: persistent session vanished", i))
+				return
+			}
+		}
+		if !mm.sentinelSub {
+			if _, err := mm.c.Subscribe([]mqttx.Sub{{Filter: fmt.Sprintf("sent/m%d", i), QoS: 1}}, 0, step); err != nil {
+				add("drain.subscribe", err.Error())
+				return
+			}
+		}
+		b.Srv.Publisher().Publish(&gmqtt.Message{Topic: fmt.Sprintf("sent/m%d", i), Payload: []byte("sentinel"), QoS: 1})
+		if err := mm.c.WaitPayload("sentinel", step); err != nil {
+			add("drain.sentinel", fmt.Sprintf("m%d: %v", i, err))
+			return
+		}
+	}
+	time.Sleep(20 * time.Millisecond)
+	// collect receptions: payload -> list of (member, subscription ids, qos)
+	type rcv struct {
+		m   int
+		ids []uint32
+		qos byte
+	}
+	got := map[string][]rcv{}
+	for i, mm := range ms {
+		for _, c := range append(append([]*wire.Client{}, mm.prev...), mm.c) {
+			if c == nil {
+				continue
+			}
+			for _, r := range c.Publishes() {
+				var ids []uint32
+				if r.P.Props != nil {
+					ids = r.P.Props.SubscriptionIDs
+				}
+				got[string(r.P.Payload)] = append(got[string(r.P.Payload)], rcv{i, ids, r.P.QoS})
+			}
+		}
+	}
+	min := func(a, b byte) byte {
+		if a < b {
+			return a
+		}
+		return b
+	}
+	for _, pr := range pubs {
+		rs := got[pr.payload]
+		for k, mem := range pr.members {
+			obs["group_deliveries_checked"]++
+			if len(mem) >= 2 {
+				obs["group_deliveries_with_choice"]++
+			}
+			n := 0
+			for _, r := range rs {
+				for _, id := range r.ids {
+					for _, mq := range mem {
+						mi := mq.M
+						if id == subID(mi, k, allFilters) && r.m == mi {
+							n++
+							hist[fmt.Sprintf("size%d", len(mem))]++
+							if want := min(pr.qos, mq.Q); r.qos != want {
+								add(fmt.Sprintf("group.qos:got=%d:want=%d", r.qos, want), fmt.Sprintf("message %s (QoS %d) via $share/%s/%s to m%d (granted %d) with QoS %d", pr.payload, pr.qos, k.Group, k.Filter, mi, mq.Q, r.qos))
+							}
+						}
+					}
+				}
+			}
+			lossy := false
+			for _, mq := range mem {
+				if pr.lossy[mq.M] {
+					lossy = true
+				}
+			}
+			if n == 0 && lossy {
+				obs["group_deliveries_unobservable"]++
+				continue
+			}
+			if n != 1 {
+				kind := "none"
+				if n > 1 {
+					kind = "several"
+				}
+				add(fmt.Sprintf("group.%s:members=%d", kind, len(mem)), fmt.Sprintf("message %s (topic %s) matched $share/%s/%s with members %v: %d copies delivered through the group, want exactly 1 (receptions %v)", pr.payload, pr.topic, k.Group, k.Filter, mem, n, rs))
+			}
+		}
+		// copies attributed to groups the receiver was not a member of / that do not match
+		for _, r := range rs {
+			for _, id := range r.ids {
+				if id == 7 {
+					continue
+				}
+				ok := false
+				for k, mem := range pr.members {
+					for _, mq := range mem {
+						if mq.M == r.m && id == subID(mq.M, k, allFilters) {
+							ok = true
+						}
+					}
+				}
+				if !ok {
+					add("group.non_member", fmt.Sprintf("m%d received %s with subscription id %d although it was not a member of a matching group when it was published", r.m, pr.payload, id))
+				}
+			}
+		}
+		// non-shared copies: independent of the groups
+		for i := range ms {
+			qs := pr.plainOf[i]
+			n := 0
+			for _, r := range rs {
+				if r.m != i {
+					continue
+				}
+				for _, id := range r.ids {
+					if id == 7 {
+						n++
+						break
+					}
+				}
+			}
+			want := 0
+			if len(qs) > 0 {
+				want = 1
+				if sc.Mode == config.Overlap {
+					want = len(qs)
+				}
+			}
+			if pr.lossy[i] && n <= want {
+				continue
+			}
+			if n != want {
+				add(fmt.Sprintf("plain.copies:mode=%s", sc.Mode), fmt.Sprintf("m%d got %d non-shared copies of %s, want %d (its non-shared subscriptions must be served independently of the groups)", i, n, pr.payload, want))
+			}
+		}
+		delete(got, pr.payload)
+	}
+	for pl, rs := range got {
+		if pl == "sentinel" || strings.HasPrefix(pl, "bar-") {
+			continue
+		}
+		add("delivery.unknown", fmt.Sprintf("payload %q received %v but never published", pl, rs))
+	}
+	for _, e := range b.Log.Events() {
+		if e.Kind == "OnMsgDropped" {
+			add("dropped", fmt.Sprintf("message %q dropped for %s: %s", e.Payload, e.Client, e.Err))
+		}
+	}
+	obs["publishes"] = len(pubs)
+	return
+}
+
+// RunWire is part (b).
+func RunWire(r *monitor.Run) {
+	n := r.Pick(120, 1500)
+	rng := r.Rand("wire")
+	scs := make([]Scenario, n)
+	for i := range scs {
+		scs[i] = gen(rng, r.Pick(40, 80))
+	}
+	r.Parallel(n, 16, func(i int) {
+		sc := &scs[i]
+		fs, obs, hist, err := runW(sc)
+		r.Eval(1)
+		if err != nil {
+			r.Inconclusive(fmt.Sprintf("wire %d: %v", i, err))
+			return
+		}
+		hs := make([]string, len(sc.Ops))
+		for k, o := range sc.Ops {
+			hs[k] = o.String()
+		}
+		for _, f := range fs {
+			r.Violation(f.Sig, f.What, map[string]any{"scenario": sc, "history_text": hs, "index": i})
+		}
+		for k, v := range obs {
+			r.Count("wire_"+k, int64(v))
+		}
+		for k, v := range hist {
+			r.Count("wire_selected_from_group_"+k, int64(v))
+		}
+		if obs["group_deliveries_with_choice"] > 0 {
+			r.Nontrivial("wire|" + monitor.J(sc))
+		}
+		if i == 0 {
+			r.Sample(map[string]any{"wire_history": hs, "mode": sc.Mode, "persistent": sc.Persistent})
+		}
+	})
+}
+
+
+// Replay re-runs the scenario stored in a violation detail.
+func Replay(r *monitor.Run, detail []byte) {
+	var d struct{ Scenario Scenario }
+	if err := json.Unmarshal(detail, &d); err != nil || len(d.Scenario.Ops) == 0 {
+		fmt.Println("replay: no wire scenario in this file:", err)
+		return
+	}
+	fs, _, _, err := runW(&d.Scenario)
+	if err != nil {
+		fmt.Println("replay: harness error:", err)
+		return
+	}
+	for _, f := range fs {
+		r.Violation(f.Sig, f.What, nil)
+	}
+}
